@@ -6,11 +6,49 @@ from engine.specfun import NS as SF
 S_ = 'lib/snr.cpp'
 A = 'dsplib::(anon)::'
 ENV = dict(SF)
+from contracts.mathfun import LIBM as _LIBM
+ENV.update({k: v for k, v in _LIBM.items() if k not in ENV})
 
+import z3 as _z3
+
+
+def wmean(F, Sw, m, lo, hi):
+    """weighted-mean bounds: weights >= 0 and lo <= F[j] <= hi below m imply lo*sum(S) <= dot(F, S) <= hi*sum(S) and sum(S) >= 0
+    (induction on m; engine/selftest.py)"""
+    from engine.specfun import SUMR, DOT
+    F, Sw, m, lo, hi = [getattr(t, 'z', t) for t in (F, Sw, m, lo, hi)]
+    j = _z3.Int('j!wm')
+    return _z3.Implies(_z3.ForAll([j], _z3.Implies(_z3.And(0 <= j, j < m), _z3.And(Sw[j] >= 0, lo <= F[j], F[j] <= hi))),
+                       _z3.And(SUMR(Sw, m) >= 0, lo * SUMR(Sw, m) <= DOT(F, 0, 1, Sw, m), DOT(F, 0, 1, Sw, m) <= hi * SUMR(Sw, m)))
+
+
+ENV['WMEAN'] = wmean
+
+
+def sumr_ge(Aa, m, p):
+    """a sum of non-negative terms is non-negative and at least any one of its terms (induction on m; engine/selftest.py)"""
+    from engine.specfun import SUMR
+    Aa, m, p = [getattr(t, 'z', t) for t in (Aa, m, p)]
+    j = _z3.Int('j!sg')
+    return _z3.Implies(_z3.ForAll([j], _z3.Implies(_z3.And(0 <= j, j < m), Aa[j] >= 0)),
+                       _z3.And(SUMR(Aa, m) >= 0, _z3.Implies(_z3.And(0 <= p, p < m), SUMR(Aa, m) >= Aa[p])))
+
+
+ENV['SUMR_GE'] = sumr_ge
 fn(A + '_get_psd_tone', S_, sig='(const dsplib::arr_real &, dsplib::real_t)', key='_get_psd_tone(spec,freq)', serves=['C19', 'C05'], pure=True, extra_env=ENV,
    requires=[('nonempty', 'And(spec.len >= 1, spec.len <= 262144)'), ('frequency', 'And(tone_freq >= -4, tone_freq <= 4)')], throws='False',
    body_assumes=['INSLICE_AX()'],
+   post_facts=['WMEAN(data(f_fund), data(s_fund), rpos - lpos + 1, ToReal(lpos) / ToReal(n), ToReal(rpos) / ToReal(n))', 'SUMR_GE(data(s_fund), rpos - lpos + 1, freq_num - lpos)'],
    ensures=[('skirt', 'And(0 <= result.lpos, result.lpos <= result.rpos, result.rpos < spec.len, result.size == spec.len)'),
             ('hint:falling_left', 'forall(lambda j: Implies(And(result.lpos < j, j <= ipeak), spec[j - 1] < spec[j]))'),
+            # for a non-negative spectrum with some power in the skirt the reported frequency (the power-weighted centroid of the
+            # skirt's bin frequencies) lies inside the skirt
+            ('centroid_in_skirt', 'Implies(And(forall(lambda k: Implies(And(0 <= k, k < spec.len), spec[k] >= 0)), result.power > 0), '
+                                  'And(result.freq * ToReal(spec.len) >= ToReal(result.lpos), result.freq * ToReal(spec.len) <= ToReal(result.rpos)))'),
+            ('power_at_least_the_start_bin', 'Implies(And(forall(lambda k: Implies(And(0 <= k, k < spec.len), spec[k] >= 0)), result.lpos <= {c}, {c} <= result.rpos), '
+                                             'And(result.power >= 0, result.power >= spec[{c}]))'.format(c='zmax(zmin(ToInt(rnd(tone_freq * ToReal(spec.len))), spec.len - 1), 0)')),
+            # started on a local maximum (the bin nearest to tone_freq), the walk stays there and the skirt is taken around it
+            ('skirt_around_a_local_maximum', 'Implies(And(Or({c} == 0, spec[{c} - 1] <= spec[{c}]), Or({c} == spec.len - 1, spec[{c}] >= spec[{c} + 1])), '
+                                             'And(result.lpos <= {c}, {c} <= result.rpos))'.format(c='zmax(zmin(ToInt(rnd(tone_freq * ToReal(spec.len))), spec.len - 1), 0)')),
             ('power_is_sum_of_the_skirt', 'exists_w(lambda B: And(forall(lambda t: Implies(And(0 <= t, t <= result.rpos - result.lpos), B[t] == spec[result.lpos + t])), '
                                           'result.power == SUMR(B, result.rpos - result.lpos + 1)), data(s_fund))')])
